@@ -182,6 +182,28 @@ def r19c(ctx):
     defaults_ok = "ifglobalsisNone:\nglobals:Dict[str,Any]=DEFAULT_GLOBALS" in src.replace("    ", "") or \
                   "globals=DEFAULT_GLOBALS" in src or "globals:Dict[str,Any]=DEFAULT_GLOBALS" in src
     extra = [x for x in ("builtins", "__builtins__", "globals()", "locals()", "vars(") if x in src]
+    # the environments are read-only: the globals mapping may be the shared whitelist itself
+    gp = func_params(ev.node)[2] if len(func_params(ev.node)) > 2 else "globals"
+    aliases = {gp}
+    for _ in range(3):
+        for s_ in walk_no_nested(ev.node):
+            if isinstance(s_, (ast.Assign, ast.AnnAssign)) and s_.value is not None and dotted(s_.value) in aliases:
+                t_ = s_.targets[0] if isinstance(s_, ast.Assign) else s_.target
+                if isinstance(t_, ast.Name):
+                    aliases.add(t_.id)
+    muts = []
+    for fnode in (ev.node, gv.node):
+        for x in walk_no_nested(fnode):
+            if isinstance(x, ast.Call) and isinstance(x.func, ast.Attribute) and dotted(x.func.value) in aliases | {"DEFAULT_GLOBALS"} \
+                    and x.func.attr in ("update", "setdefault", "pop", "popitem", "clear", "__setitem__", "__delitem__"):
+                muts.append(x)
+            if isinstance(x, ast.Subscript) and isinstance(x.ctx, (ast.Store, ast.Del)) and dotted(x.value) in aliases | {"DEFAULT_GLOBALS"}:
+                muts.append(x)
+    if muts:
+        ctx.violation("R19c", f, "Expression.eval", muts[0], "whitelist is read-only",
+                      f"`{norm(muts[0], 60)}` writes into the globals mapping, which is the shared DEFAULT_GLOBALS whitelist whenever "
+                      f"the caller passes none: variables of one evaluation become resolvable in later ones (and can shadow "
+                      f"built-ins), so the names an expression can resolve are no longer 'the variables it was given and the whitelist'")
     if defaults_ok and not extra:
         ctx.proved("R19c", f, "Expression.eval", ev.node, "default environment", "globals defaults to DEFAULT_GLOBALS, locals to {}")
     else:
